@@ -852,11 +852,18 @@ def regen_files(vals):
                  "volts %(p4)s d.\nProof. intros d. destruct %(G)ssim_matches as (-> & -> & -> & ->). reflexivity. Qed.\n"
                  % dict(G=G, p5=p5, p4=p4, unf=unf))
         for t in ("no_exception", "in_range", "antitone", "strictly_decreasing_inside", "power_law", "floor",
-                  "infinite_voltages", "sim_no_exception", "sim_remembers"):
+                  "infinite_voltages", "sim_no_exception", "sim_remembers",
+                  "rio_reading", "rio_pin_only", "rio_in_range", "rio_antitone", "rio_power_law"):
             props += "Definition %s%s := C17_%s %s.\n" % (G, t, t, adm)
         props += ("Definition %(G)ssim_inverse := fun d => C17_sim_inverse %(adm)s d %(G)sfloor_below_sim.\n"
                   "Definition %(G)ssim_inverse_inf := fun d => C17_sim_inverse_inf %(adm)s d %(G)sfloor_below_sim.\n"
                   "Definition %(G)ssim_sensor := fun s d => C17_sim_sensor %(adm)s s d %(G)sfloor_below_sim.\n"
+                  "Definition %(G)srio_sim := fun r d => C17_rio_sim %(adm)s r d %(G)sfloor_below_sim.\n"
+                  "Check (%(G)srio_reading : forall r : rio, rio_distance_opt %(p5)s r = "
+                  "Some (reading_x %(p5)s (pin r))).\n"
+                  "Check (%(G)srio_sim : forall (r : rio) (d : xreal), rio_distance_opt %(p5)s "
+                  "(rio_set_distance %(p4)s r d) = Some (clamp_x %(G)slo %(G)shi d) /\\ "
+                  "same_rails (rio_set_distance %(p4)s r d) r).\n"
                   "Check (%(G)sin_range : forall v, %(G)slo <= reading %(p5)s v <= %(G)shi).\n"
                   "Check (%(G)santitone : forall v1 v2, v1 <= v2 -> reading %(p5)s v2 <= reading %(p5)s v1).\n"
                   "Check (%(G)ssim_inverse : forall d, reading %(p5)s (volts %(p4)s d) = Rmax (Rmin d %(G)shi) %(G)slo).\n"
